@@ -49,4 +49,12 @@ theorem C07_mask_switch_not_supported (ds : DistSem) (p : Prog) (ps : List Prog)
     obtain ⟨_, _, h2⟩ := h
     simp at h2
 
+/-- vmap (hence repeat) rejects Regenerate too: `Vmap.edit` accepts `Update` and `IndexRequest` only. -/
+theorem C07_vmap_not_supported (ds : DistSem) (p : Prog) (axes : List Ax) (i : In) :
+    ∀ r, run ds .regen (.vmap p axes) i ≠ .ok r := by
+  intro r h
+  simp only [run, vmapRun, bind_ok] at h
+  obtain ⟨as, has, _⟩ := h
+  exact (vmapArgs_ok has).2 rfl
+
 end GenjaxVerif.GFI
